@@ -154,7 +154,15 @@ def _is_bag_name(f, name, depth=0, seen=None):
         elif isinstance(p, ast.Call) and any(a is x for a in p.args):
             fn = p.func
             nm = fn.id if isinstance(fn, ast.Name) else (fn.attr if isinstance(fn, ast.Attribute) else None)
-            ok = nm in ('set', 'frozenset', 'sorted', 'any', 'all', 'union', 'sum', 'len', 'max', 'min', 'update', 'intersection', 'difference', 'extend')
+            ORDER_FREE = ('set', 'frozenset', 'sorted', 'any', 'all', 'union', 'sum', 'len', 'max', 'min', 'update', 'intersection', 'difference', 'extend')
+            ok = nm in ORDER_FREE
+            if nm in ('filter', 'map') and p.args and p.args[-1] is x:
+                # filter(pred, xs) / map(fn, xs) handed straight to an order-free consumer:  result.update(filter(accepts, level))
+                pp = parents.get(id(p))
+                if isinstance(pp, ast.Call) and any(a is p for a in pp.args):
+                    fn2 = pp.func
+                    nm2 = fn2.id if isinstance(fn2, ast.Name) else (fn2.attr if isinstance(fn2, ast.Attribute) else None)
+                    ok = nm2 in ORDER_FREE and nm2 != 'extend'
             if nm == 'extend' and not (isinstance(fn, ast.Attribute) and isinstance(fn.value, ast.Name) and _is_bag_name(f, fn.value.id, depth + 1, seen)):
                 ok = False
         elif isinstance(p, ast.Starred):
